@@ -243,6 +243,7 @@ func (fc *funcCtx) transfer(from, to *ssa.BasicBlock, st *State) (*ssa.BasicBloc
 		fc.oblige(st, "inv-init", fmt.Sprintf("loop%d/%s", l.Ordinal, clauseLabel(inv, i)), g, "invariant holds on entry: "+inv.Src)
 	}
 	fc.havoc(st, l)
+	fc.rangeBoundFact(st, l)
 	env = fc.localEnv(st, l)
 	for _, inv := range spec.Invariants {
 		st.assume(fc.e.cevalBool(inv.E, env))
@@ -1432,4 +1433,55 @@ func (fc *funcCtx) declOrdinal(a *ssa.Alloc) int {
 		}
 	}
 	return fc.declOrd[a]
+}
+
+
+// rangeBoundFact: a range over a slice, array or integer keeps its position in a compiler-generated
+// cell that only the loop head writes (-1 before the loop, +1 per iteration, the body entered only
+// while position+1 < n with n computed once before the loop). So -1 <= position and position+1 <= n
+// hold at the head on every arrival; this is the language's semantics of range, not an invariant the
+// contract has to state.
+func (fc *funcCtx) rangeBoundFact(st *State, l *Loop) {
+	al, ok := l.KCell.(*ssa.Alloc)
+	if !ok || al.Comment != "rangeindex" || len(l.Head.Instrs) == 0 {
+		return
+	}
+	iff, ok := l.Head.Instrs[len(l.Head.Instrs)-1].(*ssa.If)
+	if !ok {
+		return
+	}
+	cmp, ok := iff.Cond.(*ssa.BinOp)
+	if !ok || cmp.Op != token.LSS {
+		return
+	}
+	inc, ok := cmp.X.(*ssa.BinOp)
+	if !ok || inc.Op != token.ADD {
+		return
+	}
+	if ld, ok := inc.X.(*ssa.UnOp); !ok || ld.Op != token.MUL || ld.X != ssa.Value(al) {
+		return
+	}
+	if c, ok := inc.Y.(*ssa.Const); !ok || c.Value == nil || c.Value.ExactString() != "1" {
+		return
+	}
+	if ins, ok := cmp.Y.(ssa.Instruction); ok && l.Blocks[ins.Block()] {
+		return // the bound is recomputed inside the loop: not the range form
+	}
+	// the cell is written only by the head's own store
+	for b := range l.Blocks {
+		for _, ins := range b.Instrs {
+			if s, ok := ins.(*ssa.Store); ok && s.Addr == ssa.Value(al) && (b != l.Head || s.Val != ssa.Value(inc)) {
+				return
+			}
+		}
+	}
+	pos, ok := st.cells[al].(Sc)
+	if !ok {
+		return
+	}
+	n, ok := fc.val(st, cmp.Y).(Sc)
+	if !ok {
+		return
+	}
+	st.assume(and(app("<=", "(- 1)", pos.T), app("<=", plus(pos.T, "1"), n.T)))
 }
